@@ -83,7 +83,7 @@ theorem distributeReward_ok {L L1 : Ledger} {a : Addr} {p pool samples d : Nat}
     · next L' h1 =>
       simp only [Except.ok.injEq, Prod.mk.injEq] at h
       obtain ⟨rfl, rfl⟩ := h
-      obtain ⟨acc, rfl, e⟩ := accountAdd_ok h1
+      obtain ⟨acc, vs, rfl, e⟩ := accountAdd_ok h1
       refine ⟨by omega, rfl, rfl, ?_, rfl⟩
       ledger_norm; omega
   · next val hv =>
@@ -128,7 +128,7 @@ theorem distributeReward_ok {L L1 : Ledger} {a : Addr} {p pool samples d : Nat}
       · next L' h1 =>
         simp only [Except.ok.injEq, Prod.mk.injEq] at h
         obtain ⟨rfl, rfl⟩ := h
-        obtain ⟨acc, rfl, e⟩ := accountAdd_ok h1
+        obtain ⟨acc, vs, rfl, e⟩ := accountAdd_ok h1
         refine ⟨by omega, rfl, rfl, ?_, rfl⟩
         ledger_norm; omega
 
@@ -249,7 +249,7 @@ theorem distributeReward_committeesData {L L1 : Ledger} {a : Addr} {p pool sampl
     · next L' h1 =>
       simp only [Except.ok.injEq, Prod.mk.injEq] at h
       obtain ⟨_, rfl⟩ := h
-      obtain ⟨acc, rfl, _⟩ := accountAdd_ok h1; rfl
+      obtain ⟨acc, vs, rfl, _⟩ := accountAdd_ok h1; rfl
   · split at h
     · split at h
       · exact absurd h (by intro h; cases h)
@@ -262,7 +262,7 @@ theorem distributeReward_committeesData {L L1 : Ledger} {a : Addr} {p pool sampl
       · next L' h1 =>
         simp only [Except.ok.injEq, Prod.mk.injEq] at h
         obtain ⟨_, rfl⟩ := h
-        obtain ⟨acc, rfl, _⟩ := accountAdd_ok h1; rfl
+        obtain ⟨acc, vs, rfl, _⟩ := accountAdd_ok h1; rfl
 
 theorem distributeStubs_committeesData {pool samples : Nat} : ∀ (ps : List (Addr × Nat)) (L L1 : Ledger) (tot tot' : Nat),
     distributeStubs L pool samples ps tot = .ok (tot', L1) → L1.committeesData = L.committeesData
